@@ -53,6 +53,61 @@ def base_scn(rng, sched):
     return scn
 
 
+def builtin_sampler_faults(chk: Check, rng):
+    """real built-in samplers (every class, any of the history-free ones first), the toy model failing at EVERY one of its invocations in turn:
+    the exception propagates, the history is the fault-free prefix, and calibrate() works afterwards (stateful samplers have already
+    advanced their own state when the batch they proposed fails)"""
+    import contextlib, io
+    from vp import twin
+    first_ok = ["HaltonSampler", "RandomUniformSampler", "RSequenceSampler", "ParticleSwarmSampler"]
+    for ci in range(3 if chk.tier == "quick" else 20):
+        first = "ParticleSwarmSampler" if ci == 0 else rng.choice(first_ok)
+        rest = [rng.choice(twin.BUILTINS) for _ in range(rng.randint(1, 2))]
+        cfg = {"lineup": [(first, rng.randint(2, 4), None)] + [(nm, rng.randint(1, 3) if nm != "BestBatchSampler" else 2, None) for nm in rest], "dims": rng.randint(1, 3),
+               "loss": "minkowski", "ensemble": rng.randint(1, 2), "seed": rng.randrange(10 ** 6), "n_jobs": 1}
+        nb = len(cfg["lineup"]) + 1
+        with contextlib.redirect_stdout(io.StringIO()), warnings.catch_warnings():
+            warnings.simplefilter("ignore")
+            try:
+                free = twin.build(cfg, None); free.calibrate(nb)
+            except Exception:  # noqa: BLE001  (an invalid line-up for a third-party reason: not the subject)
+                continue
+            total_calls = len(free.params_samp) * cfg["ensemble"]
+            for k in range(total_calls):
+                state = {"n": 0}
+
+                def model(theta, N, seed, _k=k, _s=state):  # noqa: N803
+                    _s["n"] += 1
+                    if _s["n"] - 1 == _k:
+                        raise ch.StubFault("model")
+                    return twin.toy_model(theta, N, seed)
+                cal = twin.build(cfg, None, model=model)
+                raised = None
+                try:
+                    cal.calibrate(nb)
+                except ch.StubFault:
+                    raised = "model"
+                except Exception as e:  # noqa: BLE001
+                    raised = type(e).__name__
+                case = {"case": {"kind": "builtin", "cfg": cfg, "nb": nb, "model_call": k}}
+                chk.case(["builtin-fault", cfg, k], cal.current_batch_index >= 1, {"lineup": [x[0] for x in cfg["lineup"]], "model_call_that_fails": k, "batches_before": int(cal.current_batch_index)})
+                chk.count("builtin:first=" + first)
+                if raised != "model":
+                    chk.fail(f"built-in line-up {[x[0] for x in cfg['lineup']]}: the model's exception at its call {k} surfaced as {raised}", case)
+                n = len(cal.params_samp)
+                if not (len(cal.losses_samp) == len(cal.series_samp) == len(cal.batch_num_samp) == len(cal.method_samp) == n == cal.n_sampled_params):
+                    chk.fail("records are not aligned after the failure (built-in samplers)", case)
+                elif cal.params_samp.tobytes() != free.params_samp[:n].tobytes() or np.asarray(cal.losses_samp, dtype=float).tobytes() != np.asarray(free.losses_samp[:n], dtype=float).tobytes():
+                    chk.fail("history after the failure is not the prefix of the fault-free run (built-in samplers)", case)
+                try:
+                    b0 = cal.current_batch_index
+                    cal.calibrate(1)
+                    if cal.current_batch_index != b0 + 1:
+                        chk.fail("calibrate(1) after the failure did not add exactly one batch (built-in samplers)", case)
+                except Exception as e:  # noqa: BLE001
+                    chk.fail(f"built-in line-up {[x[0] for x in cfg['lineup']]}: calibrate() after a failure at model call {k} ({b0} batches completed) raised {type(e).__name__}: {str(e)[:80]}", case)
+
+
 def run(chk: Check):
     rng = chk.rng
     chk.rule = ("for each base scenario (round-robin and RL scheduler, 2-6 batches, with and without saving folder) an exception is injected at EVERY "
@@ -77,10 +132,18 @@ def run(chk: Check):
         if base.fault_base and (bi // 4) % 2 == 1:
             base.fault_class = "generator_exit"
         chk.count("fault_class:" + base.fault_class)
+        if bi % 2 == 0 or bi % 4 == 1:
+            # samplers that de-duplicate (two redraw passes) over a coarse space: proposals repeat the history and each other, so sample_batch is
+            # also called for replacements — and may fail there
+            base.dedup_passes = 2
+            vals = [0.0, 0.5, 1.0, 1.5]
+            base.lineup = [(c, bs, [[[rng.choice(vals) for _ in range(base.dims)] for _ in range(bs)] for _ in script], cs) for (c, bs, script, cs) in base.lineup]
+            base.loss_table = {}
+            chk.count("samplers:deduplicating_on_a_coarse_space")
         free_lines, free_info = run_quiet(base)
-        nS, nM, nL = ch.STATE["sampler_calls"], ch.STATE["model_calls"], ch.STATE["loss_calls"]
-        space = [("S", k) for k in range(nS)] + [("M", k) for k in range(nM)] + [("L", k) for k in range(nL)]
-        exhaustive_spaces.append({"scheduler": sched, "sampler_calls": nS, "model_calls": nM, "loss_calls": nL})
+        nS, nM, nL, nB = ch.STATE["sampler_calls"], ch.STATE["model_calls"], ch.STATE["loss_calls"], ch.STATE.get("batch_calls", 0)
+        space = [("S", k) for k in range(nS)] + [("M", k) for k in range(nM)] + [("L", k) for k in range(nL)] + ([("B", k) for k in range(nB)] if base.dedup_passes else [])
+        exhaustive_spaces.append({"scheduler": sched, "sampler_calls": nS, "model_calls": nM, "loss_calls": nL, "sample_batch_calls": nB if base.dedup_passes else None})
         free_first = hist_fields(free_lines[1])
         for fault in space:
             scn = copy.deepcopy(base)
@@ -88,7 +151,7 @@ def run(chk: Check):
             lines, info = run_quiet(scn)
             first = lines[1]
             raised = first.startswith("raise:")
-            kind = {"S": "sampler", "M": "model", "L": "loss"}[fault[0]]
+            kind = {"S": "sampler", "M": "model", "L": "loss", "B": "sampler"}[fault[0]]
             hf = hist_fields(first)
             chk.case([scn_json(base), fault], int(hf["b"]) >= 1 and raised,
                      {"scheduler": sched, "fault": fault, "first_call": first[:60], "batches_before_fault": hf["b"], "second_call": lines[2][:40]})
@@ -125,6 +188,7 @@ def run(chk: Check):
                 chk.disagree("Calibrator under a fault plan != BlackIt.Calibrator.runBatch/calLoop",
                              {"scenario": scn_json(base), "fault": list(fault), "op_index": k,
                               "fields": ch.diff_fields(a, b) if k is not None and k >= 0 else None, "impl": a[:500], "model": b[:500]})
+    builtin_sampler_faults(chk, rng)
     chk.extra["exhaustive"] = True
     chk.extra["fault_index_spaces"] = exhaustive_spaces
 
